@@ -666,9 +666,16 @@ func c46Check(r *vkit.Run, st *c46Stats, c *c46Case) {
 		if v.Duty == pp.Malformed {
 			class = "malformed:" + v.Reason
 			if shape == "data-delivered-despite-close" {
-				// one cause whatever rule the header broke: the connection is closed without
-				// recording the error, so bytes already buffered still reach the application
-				class = "malformed"
+				// Headers of these kinds get past the parser and fail only when the
+				// addresses are resolved; that failure closes the connection without
+				// recording the error, so bytes already buffered still reach the
+				// application. One shape whatever else the header breaks.
+				for _, x := range v.Reasons {
+					switch x {
+					case "v1-unknown-proto-token", "v1-bad-ipv6", "v2-local-truncated-body", "v2-local-truncated-fixed-part":
+						class = "malformed:reaches-address-resolution"
+					}
+				}
 			}
 		}
 		if v.Duty == pp.NoHeader {
